@@ -54,11 +54,14 @@ MIN_BUDGET = 150
 
 ZERO = b"0" * 40
 A, B, C_ = b"refs/heads/a", b"refs/heads/b", b"refs/heads/c"
-NAMES = [A, B, C_]
+# refs/heads/a/sub collides, as file versus directory, with refs/heads/a: a
+# command that passes every check and still fails when it is applied
+ASUB = b"refs/heads/a/sub"
+NAMES = [A, B, C_, ASUB]
 
 
 def budget(tier):
-    return 5000 if tier == "quick" else 250000
+    return 8000 if tier == "quick" else 400000
 
 
 def gen_plan(seed, tier):
@@ -78,7 +81,7 @@ def gen_plan(seed, tier):
     for i in range(npush):
         kind = rng.choice(["dulwich", "raw", "raw", "local"])
         cmds = []
-        for n in rng.sample(NAMES, rng.choice([1, 1, 2, 3])):
+        for n in rng.sample(NAMES, rng.choice([1, 1, 2, 3, 4])):
             cmd = {"ref": n.decode()}
             cmd["new"] = rng.choice(["commit", "commit", "commit", "delete",
                                      "missing"]) if kind == "raw" else \
@@ -100,8 +103,8 @@ def gen_plan(seed, tier):
                        "at": rng.choice([0, 50, 200, 400, 800, 2000]),
                        "kind": "reset"})
     init = {}
-    for n in NAMES:
-        if rng.random() < 0.75:
+    for n in (A, B, C_):
+        if rng.random() < 0.65:
             init[n.decode()] = rng.randrange(3)
     return {"kind": "push", "seed": seed, "sched": sched, "pushers": pushers,
             "init": init, "packed_refs": rng.random() < 0.3,
@@ -334,6 +337,14 @@ def run_plan(plan):
                             conns[i].a, server_path, spec,
                             lambda adv: values_for(spec, res, adv),
                             f.getvalue())
+                        if status is not None and unpack not in (None, b"ok"):
+                            # the server refused the pack: no command of this
+                            # push was accepted
+                            status = dict(status)
+                            for (_o, _n, ref_) in res["cmds"] or []:
+                                status.setdefault(
+                                    ref_, "ng unpack failed: " +
+                                    unpack.decode("utf-8", "replace")[:60])
                         res["status"] = status
                         res["unpack"] = unpack
                     else:
@@ -456,6 +467,12 @@ def run_plan(plan):
                     if any(vend == new and new != v0
                            for (_, new, _, _) in ng_cmds):
                         cls = "ng-but-changed"
+                        if overlap and any(
+                                vend == new and "atomic push failed" in s_
+                                for (_, new, _, s_) in ng_cmds):
+                            # an atomic push undone after a racing writer got
+                            # in: the undo itself lost a race
+                            cls = "atomic-rollback-incomplete"
                     elif len(ok_cmds) >= 2 and len(
                             {o for (o, _, _) in ok_cmds}) < len(ok_cmds):
                         cls = "double-cas-success"
